@@ -80,8 +80,7 @@ def untyped(draw, depth, allow_subq=True):
     if k == 'const':
         return draw(literals())
     if k == 'list':
-        # NULL inside a list literal is excluded by construction: known finding C06 list-null-dropped
-        return ['list', draw(st.lists(literals().filter(lambda x: x[1] != 'null'), min_size=1, max_size=3))]
+        return ['list', draw(st.lists(literals(), min_size=1, max_size=3))]
     if k == 'ph':
         return ['ph', draw(st.none() | idents())]
     if k == 'fn0':
@@ -533,7 +532,9 @@ def matrix_cases():
     out = []
     atoms = {'const': ['const', 'int', 7], 'list': ['list', [['const', 'int', 1], ['const', 'str', 'x']]], 'ph': ['ph', None],
              'call': ['fn', 'g', []], 'star-call': ['fn', 'count', [['star']]], 'date': ['const', 'date', datetime.date(2020, 1, 2)],
-             'decimal': ['const', 'decimal', Decimal('1.50')], 'null': ['const', 'null', None], 'true': ['const', 'bool', True]}
+             'decimal': ['const', 'decimal', Decimal('1.50')], 'null': ['const', 'null', None], 'true': ['const', 'bool', True],
+             'list-null': ['list', [['const', 'int', 1], ['const', 'null', None], ['const', 'str', 'x'], ['const', 'null', None]]],
+             'null-list': ['list', [['const', 'null', None], ['const', 'int', 1]]], 'one-null': ['list', [['const', 'null', None]]]}
     for parent in PARENTS:
         n = ARITY.get(parent, 2)
         for pos in range(n):
